@@ -65,6 +65,10 @@ def alloc_check(ctx):
     s40 = ctx.harness('sweep40', prop='C17', n=251 if thorough else 997, **{'in': r40['out']})
     viol17 += list(s40['violations'])
     s['compared']['Score() on a stripe of v4 classes'] = s40['evaluations']
+    # the same budget while 8 goroutines are inside the same function at once (each on its own object)
+    sc = ctx.harness('allocconc', prop='C17', tier=ctx.tier, **{'in': r['out']})
+    viol17 += list(sc['violations'])
+    s['compared'].update(sc['compared'])
     nmeas = sum(s['compared'].values())
     cov = dict(evaluations=nmeas, distinct_nontrivial=s['distinct_nontrivial'],
                rule='TLC (MC_Alloc) enumerates per version: base objects, each optional metric alone x each value (U:Clear/Green/Amber/Red '
@@ -72,7 +76,8 @@ def alloc_check(ctx):
                     'mechanism) and states the budget; the harness measures, per object, runtime.MemStats.Mallocs around Vector() (=1), '
                     'ParseVector of its vector (<=1, also right after each kind of failing parse), Get / Set legal / Set illegal on every metric '
                     '(=0), every scoring method, Rating, Nomenclature (=0); minimum over 12 (thorough 40) samples, GC off during a sample, '
-                    'GOMAXPROCS(1); distinct_nontrivial = objects measured',
+                    'GOMAXPROCS(1); Set with illegal values of 19 length classes (0..5000 bytes) on every metric; average mallocs per call of Vector / ParseVector / score '
+                    'with 8 goroutines inside the function at once (within 2% of the budget); distinct_nontrivial = objects measured',
                samples=s['samples'], compared=s['compared'], states=ctx.states()[0], transitions=ctx.states()[1],
                traces_validated_against_impl=s['distinct'], exhaustive=False)
     return core.finish(ctx, 'exploration', cov, viol17, [
